@@ -13,7 +13,7 @@ ASSUMPTIONS = [
 
 
 def bounds(tier):
-    return dict(permutations="the generators (0 1) and (0 1 ... m-1) of S_m; the domains are closed under row permutations, so this covers all m! permutations", m="m <= 3 (Gram-only: mean,sum,constant,mgda[max_iters<=2 at m=2, 1 at m=3],imtlg); m = 2 for upgrad,dualproj,alignedmtl,cagrad,config; "
+    return dict(permutations="the generators (0 1) and (0 1 ... m-1) of S_m; the domains are closed under row permutations, so this covers all m! permutations", m="m <= 3 (Gram-only: mean,sum,constant,mgda[max_iters<=2 at m=2, 1 at m=3],imtlg); m = 2 for upgrad,dualproj,alignedmtl,config (CAGrad is NOT claimed: solver unknown); "
                   "trimmed mean m <= 4 (n <= 2); krum m in {3,4}; graddrop m <= 3, n = 1")
 
 
@@ -24,8 +24,8 @@ def cases(tier):
             for pi in range(len(gens(m))):
                 cs.append(dict(name=f"{name}_m{m}_p{pi}", fn="gram", args=dict(agg=name, m=m, pi=pi), weight=m * (3 if name in ("mgda", "imtlg") else 1)))
     for name in ("upgrad", "dualproj", "upgrad_pref", "dualproj_pref", "alignedmtl", "alignedmtl_pref", "cagrad"):
-        if name == "cagrad" and tier != "thorough":
-            continue  # ~60 s alone, several minutes under load: thorough tier only
+        if name == "cagrad":
+            continue  # CAGrad: z3 decides the permuted run only sometimes (3 of 21 obligations unknown at 60 s in the thorough run): not claimed
         cs.append(dict(name=f"{name}_m2_p1", fn="gram", args=dict(agg=name, m=2, pi=0), weight=30 if name == "cagrad" else 6, **({'budget_s': 900} if name == 'cagrad' else {})))
     for m in (2, 3, 4):
         for n in (1, 2):
